@@ -248,8 +248,50 @@ def case_twin_scenario():
     return {"engine": "e1", "variant": {"preconf": False}, "actions": acts}
 
 
+def prefix_twin_scenario():
+    """nicknames of which one is a prefix of the other, at ordinary lengths and around the advertised NICKLEN (200):
+    nothing truncates silently - the longer one's owner speaks, is marked away and leaves as itself"""
+    v200 = "v" * 200
+    acts = [["connect", {"nick": v200, "user": "vic"}], ["connect", {"nick": "mal", "user": "mal"}],
+            ["connect", {"nick": "al", "user": "al"}], ["connect", {"nick": "alx", "user": "alx"}]]
+    acts.append(["act", 1, {"verb": "JOIN", "chans": ["#p"]}])
+    acts.append(["act", 3, {"verb": "JOIN", "chans": ["#p"]}])
+    for long_nick in (v200 + "x", v200 + "xy" * 30):
+        acts.append(["act", 2, {"verb": "NICK", "nick": long_nick}])
+        acts.append(["act", 2, {"verb": "PRIVMSG", "targets": ["al", "#p"], "text": "who am I"}])
+        acts.append(["act", 2, {"verb": "AWAY", "text": "gone"}])
+        acts.append(["act", 3, {"verb": "WHOIS", "masks": [v200]}])
+        acts.append(["act", 3, {"verb": "USERHOST", "nicks": [v200, long_nick]}])
+        acts.append(["act", 2, {"verb": "MODE", "target": long_nick, "modes": [["+i", []]]}])
+        acts.append(["act", 2, {"verb": "MODE", "target": v200, "modes": [["+i", []]]}])
+        acts.append(["act", 2, {"verb": "JOIN", "chans": ["#p"]}])
+        acts.append(["act", 3, {"verb": "NAMES", "chans": ["#p"]}])
+        acts.append(["act", 2, {"verb": "PART", "chans": ["#p"]}])
+        acts.append(["act", 2, {"verb": "AWAY", "text": None}])
+        acts.append(["act", 2, {"verb": "MODE", "target": long_nick, "modes": [["-i", []]]}])
+    acts.append(["act", 4, {"verb": "NICK", "nick": "al"}])        # taken
+    acts.append(["act", 4, {"verb": "PRIVMSG", "targets": ["al"], "text": "from alx"}])
+    acts.append(["act", 2, {"verb": "QUIT"}])
+    acts.append(["act", 3, {"verb": "ISON", "nicks": [v200, "al", "alx"]}])
+    acts.append(["connect", {"nick": v200 + "x", "user": "new"}])
+    acts.append(["act", 4, {"verb": "QUIT"}])
+    acts.append(["act", 3, {"verb": "LUSERS"}])
+    return {"engine": "e1", "variant": {"preconf": False}, "actions": acts}
+
+
 def run_case_twins(ctx, res, props):
     binary, hooks = ctx.binary()
+    if "C02" in props:
+        pscen = prefix_twin_scenario()
+        viol, note = run_scenario(binary, hooks, pscen)
+        res.evaluations += len(pscen["actions"])
+        res.distinct.add("prefix-twin-scenario")
+        if note:
+            res.inconclusive += 1
+            res.inconclusive_notes.append("prefix twins: " + note)
+        for v in viol:
+            res.findings.append(Finding("prefixtwins:" + v["signature"], v["detail"][:600],
+                                        {"engine": "e1-scenario", "scenario": pscen}))
     scen = case_twin_scenario()
     viol, note = run_scenario(binary, hooks, scen)
     res.evaluations += len(scen["actions"])
